@@ -159,3 +159,10 @@ _extend('C02', 'ADDED (units I-range, I-multi): the WHERE re-check is skipped on
         'so on a well-formed index no row position is returned twice (lemma). IndexData::range_scan itself is not under contract.')
 _extend('C08', 'ADDED (unit I-multi): an IN list through an index returns every row at most once (distinct normalized keys; `IN (5, 5.0)` is one key) and in ascending key order.')
 _extend('C06', 'ADDED (unit I-range): on a NULL indexed cell no comparison / BETWEEN / AND of those is TRUE, and the skip-the-re-check lemma now ranges over the NULL keys too.')
+
+_extend('C02', 'ADDED (unit I-scan): IndexData::range_scan, in-memory arm, IS now under contract: on every index with a fixed number (>= 1) of key columns it returns, in ascending key '
+        'order, the position lists of exactly the keys whose first column lies within the normalized bounds - NULL keys exactly when the start is unbounded - on all four paths '
+        '(equality prefix, empty / inverted exits, multi-column with successor bounds and first-column check - fix 7bd57b75 -, single column), and BTreeMap::range is never '
+        'called with bounds it panics on. The disk-backed arm (indexes created on >= 100000 rows) is not under contract.')
+_extend('C08', 'ADDED (unit I-scan): rows produced by an index range scan come in ascending key order (first key column non-decreasing), which is what index-provided ORDER BY relies on.')
+_extend('C24', 'ADDED (unit I-scan): IndexData::range_scan never calls BTreeMap::range with an inverted range or two equal Excluded bounds (its two documented panics).')
